@@ -233,6 +233,10 @@ pub enum Cmd {
     SetPair(u8, u16),
     /// the host stalls for that many milliseconds (the model has no clock: a no-op there)
     Nap(u32),
+    /// (run time) the host stores `v` at the current PC + `delta` through `write_byte`
+    WBPC(i16, u8),
+    /// (run time) the host sets one register pair of the running CPU (0 BC 1 DE 2 HL 3 IX 4 IY 5 SP 7 AF)
+    HostReg(u8, u16),
     /// register sweep: one step from the installed state for every value of 16-bit register `which`
     /// (0 BC 1 DE 2 HL 3 IX 4 IY 5 SP 6 PC 7 AF) in block `blk` of `nblk`; flag hash under `fmask`
     SWR { which: u8, blk: u32, nblk: u32, fmask: u8 },
@@ -269,7 +273,7 @@ impl Cmd {
             Cmd::SF(n8) => format!("SF {:X}", n8),
             Cmd::Nap(ms) => format!("NAP {:X}", ms),
             Cmd::SWR { which, blk, nblk, fmask } => format!("SWR {:X} {:X} {:X} {:02X}", which, blk, nblk, fmask),
-            Cmd::Sync | Cmd::SetPC(_) | Cmd::Singles { .. } => "<runtime>".into(),
+            Cmd::Sync | Cmd::SetPC(_) | Cmd::Singles { .. } | Cmd::WBPC(..) | Cmd::HostReg(..) => "<runtime>".into(),
         }
     }
 }
@@ -430,6 +434,26 @@ impl Imp {
                 self.cpu.reg.pc = *pc;
                 vec![(format!("P {}", regctl_of(&self.cpu, None)), "ok".into())]
             }
+            Cmd::WBPC(delta, v) => {
+                let a = self.cpu.reg.pc.wrapping_add(*delta as u16);
+                self.cpu.bus.write_byte(a, *v);
+                vec![(format!("WB {:04X} {:02X}", a, v), "ok".into())]
+            }
+            Cmd::HostReg(w, v) => {
+                {
+                    let r = &mut self.cpu.reg;
+                    match w {
+                        0 => r.set_bc(*v),
+                        1 => r.set_de(*v),
+                        2 => r.set_hl(*v),
+                        3 => r.set_ix(*v),
+                        4 => r.set_iy(*v),
+                        5 => r.sp = *v,
+                        _ => r.set_af(*v),
+                    }
+                }
+                vec![(format!("P {}", regctl_of(&self.cpu, None)), "ok".into())]
+            }
             Cmd::Singles { pc0, stop_on_z, max } => {
                 let mut out = vec![];
                 for _ in 0..*max {
@@ -451,7 +475,7 @@ impl Imp {
     /// Execute one plain command on the real implementation; the reply has the driver's format.
     pub fn exec(&mut self, cmd: &Cmd) -> String {
         match cmd {
-            Cmd::Sync | Cmd::SetPC(_) | Cmd::Singles { .. } => unreachable!(),
+            Cmd::Sync | Cmd::SetPC(_) | Cmd::Singles { .. } | Cmd::WBPC(..) | Cmd::HostReg(..) => unreachable!(),
             Cmd::SetPair(w, v) => {
                 let r = &mut self.cpu.reg;
                 let got = match w {
